@@ -286,7 +286,7 @@ def SPEC(tier):
         make_stage(pool, 'ctor-wxyz-cxx98', 'ctor', 'wxyz', gxx, ['-DGLM_FORCE_QUAT_DATA_WXYZ', '-DGLM_FORCE_CXX98'], gen_ctors.PRELUDE['wxyz']),
         make_stage(pool, 'ctor-cxx98', 'ctor', 'default', gxx, ['-DGLM_FORCE_CXX98'], gen_ctors.PRELUDE['default'], thorough_only=True),
         make_stage(pool, 'swz-function-xyzwonly', 'swizzle', 'function-basic', gxx, ['-DGLM_FORCE_SWIZZLE', '-DGLM_FORCE_XYZW_ONLY'], gen_swizzle.PRELUDE['function'], thorough_only=True),
-        make_stage(pool, 'ctor-xyzw', 'ctor', 'xyzw', gxx, ['-DGLM_FORCE_QUAT_DATA_XYZW'], gen_ctors.PRELUDE['xyzw'], thorough_only=True),
+        make_stage(pool, 'ctor-xyzw', 'ctor', 'xyzw', gxx, ['-DGLM_FORCE_QUAT_DATA_XYZW'], gen_ctors.PRELUDE['xyzw']),
         make_stage(pool, 'ctor-sse2', 'ctor', 'simd', gxx, ['-DGLM_FORCE_INTRINSICS', '-msse2'], gen_ctors.PRELUDE['simd'], thorough_only=True),
     ]
     return {'stages': stages, 'build_failure_is_violation': True,
